@@ -17,15 +17,13 @@ One intermediate representation, two renderings:
 Entry points:  `generic_programs()`  (Hypothesis strategy)  ->  dict with keys
   "generic", "spec"   source text *without* the import prelude (prepend `PRELUDE`)
   "labels"            feature labels,  "nontrivial" (bool),  "n_sites", "funcs" (summary)
-`build_program(spec)` rebuilds the same dict from the JSON-able "ir" entry.
+`build_program(ir)` rebuilds the same dict from the JSON-able "ir" entry (strategy `generic_irs()`).
 
 Executed programs avoid what selene 0.4.3 cannot run (DESIGN 1.4): classical `xs[i]`, `.copy()`
 or an implicit drop of an array inside a function that is still generic over the element type
 or the length.
 """
 from __future__ import annotations
-
-import itertools
 
 from hypothesis import strategies as st
 
@@ -345,6 +343,12 @@ TYPE_POOL = [INT, FLOAT, BOOL, ("tuple", (INT, BOOL)), ("struct", "Box", (FLOAT,
 NUM_POOL = [INT, FLOAT, BOOL]
 
 
+def _own_or(inst, key, slot, yes, no):
+    """`yes` if the call `key` passes the caller's own type slot for the callee's `slot`
+    (then the callee's result has the caller's type), else `no`"""
+    return yes if inst["bind"][key][slot][0] == "own" else no
+
+
 def _pick_body(R, inst):
     return [
         "c = len(xs)",
@@ -420,7 +424,7 @@ def _outer1_body(R, inst):
     return [
         f"u, v = {a1}",
         f"w, z = {a2}",
-        "return u, v * 1000 + z",
+        f"return {_own_or(inst, 'c1', 'T', 'u', 'x')}, v * 1000 + z",
     ]
 
 
@@ -430,7 +434,7 @@ def _outer2_body(R, inst):
     return [
         f"p, q = {a1}",
         f"d, e = {a2}",
-        "return p, q * 100 + int(d) * 10 + int(e)",
+        f"return {_own_or(inst, 'c1', 'T', 'p', 'bx.v')}, q * 100 + int(d) * 10 + int(e)",
     ]
 
 
@@ -439,8 +443,8 @@ def _chain_body(R, inst):
     return [
         f"u, v = {a1}",
         f"if {R.v('b')}:",
-        f"    return u, v + {R.v('k')}",
-        "return u, -v",
+        f"    return {_own_or(inst, 'c1', 'T', 'u', 'x')}, v + {R.v('k')}",
+        f"return {_own_or(inst, 'c1', 'T', 'u', 'x')}, -v",
     ]
 
 
@@ -459,7 +463,7 @@ def _hof_body(R, inst):
     return [
         f"r = {a1}",
         f"t = {a2}",
-        "return r, t",
+        f"return {_own_or(inst, 'c1', 'T', 'r', 'x')}, t",
     ]
 
 
@@ -537,8 +541,8 @@ _reg(Tmpl("hof", [("T", "type"), ("m", "nat")],
                  "c2": ("app", [{"T": "int", "m": "own:m"}, {"T": "int", "m": "val"}])},
           vars_={"f": ("fn", (S("T"),), S("T")), "x": S("T")}))
 
-ROOTS = ["pick", "rot", "wrap", "unbox", "dep", "vsum", "app", "fsc", "sel", "outer1", "outer1", "outer2", "outer2",
-         "chain", "chain", "twice", "hof", "sel"]
+ROOTS = ["pick", "rot", "wrap", "unbox", "dep", "vsum", "app", "fsc", "fsc", "sel", "sel", "outer1", "outer1",
+         "outer2", "outer2", "chain", "chain", "twice", "hof", "hof"]
 DEPS = {"outer1": ["pick"], "outer2": ["unbox", "dep"], "chain": ["outer1", "pick"], "twice": ["wrap"], "hof": ["app"]}
 
 CONST_POOL = {
@@ -788,7 +792,7 @@ class Program:
         return f"@guppy.struct\nclass {mangle(c)}:\n" + "\n".join(lines) + "\n"
 
     # ---- main
-    def render_main(self, mode):
+    def render_main(self, mode, entry="main"):
         R = Render(mode, {}, self)
         lines = []
         for i, site in enumerate(self.ir["sites"]):
@@ -826,7 +830,7 @@ class Program:
                 for lf in leaves(nm, ct):
                     lines.append(f'result("s{i}_{j}", {lf})')
                     j += 1
-        return "@guppy\ndef main() -> None:\n" + "\n".join("    " + ln for ln in lines) + "\n"
+        return f"@guppy\ndef {entry}() -> None:\n" + "\n".join("    " + ln for ln in lines) + "\n"
 
     def render(self):
         ir = self.ir
@@ -860,6 +864,14 @@ class Program:
         stext = "\n".join(spec_fns) + "\n" + spec_main
         helpers2 = "".join(src + "\n" for ty, (nm, src) in HELPERS.items() if nm in stext)
         spec = "\n".join(stxt) + "\n" + helpers2 + stext
+        # one module with both versions: main() runs the generic call sites, then the specialised ones
+        both_helpers = "".join(src + "\n" for ty, (nm, src) in HELPERS.items() if nm in gtxt or nm in stext)
+        combined = ("\n".join(decl) + "\n\n" + "\n".join(self.render_generic_struct(s, ss) for s in used_structs)
+                    + "\n" + "\n".join(stxt) + "\n" + both_helpers + "\n".join(gen_fns) + "\n" + "\n".join(spec_fns) + "\n"
+                    + gen_main.replace("def main()", "def run_generic()") + "\n"
+                    + spec_main.replace("def main()", "def run_spec()") + "\n"
+                    + "@guppy\ndef main() -> None:\n    run_generic()\n    run_spec()\n")
+        self.combined = combined
         return generic, spec
 
 
@@ -948,7 +960,7 @@ def generic_irs(draw, executable=True, max_roots=2):
         abstract = [s for s in slots if s in abstract]
         fixed = _draw_assignment(draw, t, [s for s in slots if s not in abstract])
         ts = [s for s in abstract if t.slot_kind(s) in ("type", "size")]
-        style = draw(st.sampled_from(["legacy", "pep", "mixed"]))
+        style = draw(st.sampled_from(["legacy", "legacy", "pep", "mixed"]))
         if style == "legacy" or not ts:
             style, bracket = "legacy", []
         elif style == "pep" or len(ts) < 2:
@@ -957,6 +969,12 @@ def generic_irs(draw, executable=True, max_roots=2):
             k = draw(st.integers(1, len(ts) - 1))
             bracket = list(draw(st.permutations(ts)))[:k]
         arg_order = list(draw(st.permutations([a[0] for a in t.args])))
+        monos = [a for a in arg_order if a in abstract and (t.slot_kind(a) in MONO_KINDS or t.slot_kind(a).startswith("dep:"))]
+        if monos and draw(st.booleans()):
+            # a parameter that must be monomorphized in front of the ones that stay generic in the HUGR
+            first = draw(st.sampled_from(monos))
+            arg_order.remove(first)
+            arg_order.insert(0, first)
         bind = {}
         for key, (callee, alts) in t.calls.items():
             ct, cf = TEMPLATES[callee], funcs[callee]
@@ -1020,7 +1038,8 @@ def generic_irs(draw, executable=True, max_roots=2):
         for _ in range(k):
             if prev is not None and draw(st.integers(0, 4)) > 0:
                 # share all but one argument with the previous instantiation
-                s = draw(st.sampled_from(f["abstract"]))
+                mono_slots = [a for a in f["abstract"] if t.slot_kind(a) in MONO_KINDS or t.slot_kind(a).startswith("dep:")]
+                s = draw(st.sampled_from(mono_slots if mono_slots and draw(st.integers(0, 2)) else f["abstract"]))
                 change = [s] + [d for d, kind in t.slots if kind == "dep:" + s and d in f["abstract"]]
                 inst = _draw_assignment(draw, t, change, {**tt(f["fixed"]), **prev})
                 inst = {s2: inst[s2] for s2 in f["abstract"]}
@@ -1091,7 +1110,7 @@ def build_program(ir):
                 labels.append("prog.struct_2inst")
     if max(n_copies.values(), default=0) >= 2:
         labels.append("prog.multi_inst")
-    return {"generic": generic, "spec": spec, "labels": sorted(set(labels)), "nontrivial": nontrivial,
+    return {"generic": generic, "spec": spec, "combined": P.combined, "labels": sorted(set(labels)), "nontrivial": nontrivial,
             "n_sites": len(ir["sites"]), "n_funcs": len(ir["order"]), "n_copies": sum(n_copies.values()),
             "executable": bool(ir.get("executable", True)), "ir": ir}
 
